@@ -80,6 +80,19 @@ class Opaque:
         return "Opaque(%s)" % self.tag
 
 
+class Abs:
+    """value of an abstracted type (String, key, signature, hash...): an element of an uninterpreted sort,
+    represented by a z3 Int identifier; only equality (and registered uninterpreted functions) observe it"""
+    __slots__ = ("sort", "term")
+
+    def __init__(self, sort, term):
+        self.sort = sort
+        self.term = term
+
+    def __repr__(self):
+        return "Abs<%s>(%s)" % (self.sort, self.term)
+
+
 class FnItem:
     __slots__ = ("text",)
 
@@ -191,6 +204,15 @@ class Program:
                 break
         self._impl_header_cache[key] = txt
         return txt
+
+    def find_closure(self, closure_type_text):
+        """MIR body of a closure given its type text `{closure@file:l:c: l:c}`"""
+        m = re.search(r"\{closure@([^}]*)\}", closure_type_text)
+        if not m:
+            return None
+        key = "closure@" + m.group(1)
+        c = [f for f in self.fns if f.params and key in f.params[0][1] and "{closure#" in f.name]
+        return c[0] if len(c) == 1 else None
 
     def find(self, name_regex):
         return [f for f in self.fns if re.search(name_regex, f.name)]
@@ -304,11 +326,16 @@ class Interp:
                     body = src[m.end():j]
                     body = re.sub(r"//[^\n]*", "", body)
                     body = re.sub(r"/\*.*?\*/", "", body, flags=re.S)
+                    feats = getattr(self, "features", {"num-integer-backend"})
+                    body = re.sub(r'#\[cfg\(feature\s*=\s*"([^"]+)"\)\]', lambda mm: "" if mm.group(1) in feats else "@@DROP@@ ", body)
                     body = re.sub(r"#\[[^\]]*\]", "", body)
                     names = {}
+                    payloads = {}
                     nxt = 0
                     for part in parser.split_top(body, ","):
                         part = part.strip()
+                        if part.startswith("@@DROP@@"):
+                            continue
                         mm = re.match(r"^([A-Za-z_][A-Za-z0-9_]*)", part)
                         if not mm:
                             continue
@@ -316,7 +343,19 @@ class Interp:
                         if d:
                             nxt = int(d.group(1))
                         names[mm.group(1)] = nxt
+                        rest = part[mm.end():].strip()
+                        tys = []
+                        if rest.startswith("("):
+                            jj = parser.find_matching(rest, 0)
+                            tys = [x.strip() for x in parser.split_top(rest[1:jj], ",") if x.strip()]
+                        elif rest.startswith("{"):
+                            jj = parser.find_matching(rest, 0)
+                            tys = [x.split(":", 1)[1].strip() for x in parser.split_top(rest[1:jj], ",") if ":" in x]
+                        payloads[mm.group(1)] = tys
                         nxt += 1
+                    if not hasattr(self, "enum_payloads"):
+                        self.enum_payloads = {}
+                    self.enum_payloads[base] = payloads
                     self.enum_tables[base] = names
                     return names
         if base.endswith("Discriminants"):
@@ -393,6 +432,10 @@ class Interp:
                     val = val.fields[p[1]]
                 elif isinstance(val, tuple) and val and val[0] == "variant":
                     val = val[1][p[1]]
+                elif isinstance(val, EnumV) and "upvars" in val.payloads:
+                    val = val.payloads["upvars"][p[1]]
+                elif isinstance(val, Abs) and p[1] == 0:
+                    pass  # single-field wrapper around an abstracted value: transparent
                 else:
                     raise Unencodable("field %d of non-aggregate %r" % (p[1], val))
             elif p[0] == "downcast":
@@ -547,6 +590,15 @@ class Interp:
             return self.eval_const_item(state, cands[0])
         if len(cands) > 1:
             raise Unencodable("constant %s ambiguous: %s" % (txt, [f.name for f in cands][:4]))
+        # unit enum variant printed as a constant: `const Option::<T>::None`
+        cparts = [x for x in parts[:-1] if not (x.strip().startswith("<") and " as " not in x)]
+        if cparts:
+            owner = norm_type(cparts[-1]).split("<")[0]
+            if owner in self.enum_tables or self.is_enum(owner):
+                try:
+                    return EnumV(owner, self.variant_index(owner, seg), {})
+                except Unencodable:
+                    pass
         # function item / unit struct / ZST closure
         return FnItem(txt)
 
@@ -963,32 +1015,50 @@ class Interp:
             return True
 
         c2 = [f for f in cands if ok(f)]
-        if len(c2) == 1:
-            return self.check_owner(c2[0], func, parts)
         if not c2:
             return None
-        # tie-break on the Self type named in the call path
+        # the Self type named in the call path must be the one of the candidate's impl block
         owner = None
-        m = re.match(r"^<(.*) as (.*)>$", parts[-2].strip()) if len(parts) >= 2 else None
         trait = None
+        # drop turbofish segments (`Type::<Args>::method`)
+        parts = [x for x in parts[:-1] if not (x.strip().startswith("<") and " as " not in x)] + [parts[-1]]
+        m = re.match(r"^<(.*) as (.*)>$", parts[-2].strip()) if len(parts) >= 2 else None
         if m:
             owner = norm_type(m.group(1))
             trait = norm_type(m.group(2))
         elif len(parts) >= 2:
             owner = norm_type(parts[-2])
         if owner:
-            c3 = []
-            for f in c2:
-                h = norm_type(self.prog.impl_header(f))
-                if owner.split("<")[0] in h and (trait is None or trait.split("<")[0] in h):
-                    c3.append(f)
-            if len(c3) == 1:
-                return c3[0]
-            if len(c3) > 1 and trait:
-                c4 = [f for f in c3 if re.search(r"impl(<[^>]*>)?%s(<|for)" % re.escape(trait.split("<")[0]), norm_type(self.prog.impl_header(f)))]
-                if len(c4) == 1:
-                    return c4[0]
-        # free function called by bare name: prefer exact-name match
+            ob = owner.split("<")[0].lstrip("&").replace("mut_", "")
+            concrete_owner = re.fullmatch(r"[A-Za-z_][A-Za-z0-9_]+", ob) is not None and not re.fullmatch(r"[A-Z]|Self", ob) and not ob[0].islower()
+            if concrete_owner:
+                c3 = []
+                for f in c2:
+                    h = re.sub(r"\b(?:[A-Za-z_][A-Za-z0-9_]*::)+", "", self.prog.impl_header(f))
+                    if not h:
+                        continue  # free function: cannot be a method of `owner`
+                    if "$" in h or re.search(r"\b%s\b" % re.escape(ob), h):
+                        if trait is None or "$" in h or trait.split("<")[0] in h:
+                            c3.append(f)
+                if not c3:
+                    return None
+                c2 = c3
+            elif ob and ob[0].islower() and len(parts) >= 2 and not m:
+                # module-qualified free function `module::func`
+                c3 = [f for f in c2 if not self.prog.impl_header(f)]
+                if c3:
+                    c2 = c3
+        if len(c2) == 1:
+            return c2[0]
+        if trait:
+            c4 = [f for f in c2 if re.search(r"impl(<[^>]*>)?%s(<|for)" % re.escape(trait.split("<")[0]), norm_type(self.prog.impl_header(f)))]
+            if len(c4) != 1 and argtys and argtys[-1] is not None:
+                # `impl Sub<u64> for X` vs `impl Sub<&u64> for X`: the trait's type argument is the last argument's type
+                c4b = [f for f in c2 if norm_type(f.params[-1][1]) == norm_type(argtys[-1])]
+                if len(c4b) == 1:
+                    c4 = c4b
+            if len(c4) == 1:
+                return c4[0]
         c5 = [f for f in c2 if f.name == func or f.name.endswith("::" + func)]
         if len(c5) == 1:
             return c5[0]
